@@ -6,6 +6,7 @@ import (
 	"go/parser"
 	"go/token"
 	"os"
+	"path"
 	"path/filepath"
 	"regexp"
 	"sort"
@@ -146,6 +147,7 @@ func c12DrawCase(rt *rapid.T) *c12Case {
 			name += "_test"
 		}
 		cs.Files[i].Name = name + ".go"
+		cs.Files[i].Mode = c12DrawMode(rt, lbl)
 		if cs.Files[i].Role != "unparseable" && rapid.IntRange(0, 2).Draw(rt, lbl+"deform") == 0 {
 			src, tags := deform(rt, cs.Files[i].Src, lbl)
 			if len(tags) > 0 {
@@ -156,7 +158,13 @@ func c12DrawCase(rt *rapid.T) *c12Case {
 	}
 	// Entries gopatch has no business with.
 	first := cs.Files[0].Src
+	// what an interrupted earlier run of gopatch itself may have left behind:
+	// its temporary file next to a target
+	f0 := cs.Files[rapid.IntRange(0, len(cs.Files)-1).Draw(rt, "leftoverOf")].Name
+	leftover := path.Join(path.Dir(f0), "."+path.Base(f0)+".gopatch-4242424242")
 	for _, o := range []c14File{
+		{Name: leftover, Src: first[:len(first)/2], Role: "leftover-temp"},
+		{Name: path.Join(path.Dir(f0), path.Base(f0)+"~"), Src: first, Role: "editor-backup"},
 		{Name: "NOTES.txt", Src: "c14fail(1)\n", Role: "text"},
 		{Name: "sub/data.json", Src: "{\"go\": false}\n", Role: "json"},
 		{Name: "vendor/v/v.go", Src: first, Role: "vendored"},
@@ -185,6 +193,21 @@ func c12DrawCase(rt *rapid.T) *c12Case {
 		}
 	}
 	return cs
+}
+
+// c12DrawMode draws permission bits for a file: mostly the default, sometimes
+// read-only or otherwise unusual (the harness runs as root or as the owner:
+// the bits are what a tool that looks at them sees).
+func c12DrawMode(rt *rapid.T, label string) uint32 {
+	switch rapid.IntRange(0, 9).Draw(rt, label+"mode") {
+	case 0, 1:
+		return 0o444
+	case 2:
+		return 0o600
+	case 3:
+		return 0o755
+	}
+	return 0
 }
 
 // ---------------------------------------------------------------------------
@@ -229,6 +252,14 @@ func c12Exec(base string, cs *c12Case, mode string) *c12Run {
 	if err := run.WriteTree(root, m); err != nil {
 		o.Bad = "harness: " + err.Error()
 		return o
+	}
+	for _, f := range cs.Files {
+		if f.Mode != 0 {
+			if err := os.Chmod(filepath.Join(root, filepath.FromSlash(f.Name)), os.FileMode(f.Mode)); err != nil {
+				o.Bad = "harness: " + err.Error()
+				return o
+			}
+		}
 	}
 	var argv []string
 	if cs.SkipGen {
@@ -518,6 +549,21 @@ func evalC12(cs *c12Case) (sig, msg string, info c12Info) {
 			info.Foreign = append(info.Foreign, "C15/C16:default-mode-touched-other-entry")
 			info.Unjudged = "default mode touched " + d
 			return
+		}
+	}
+	for _, d := range w.TreeDiff {
+		// "changed w/<name>: {Type Mode ...} -> {...}": the permission bits must survive a rewrite
+		if i := strings.Index(d, " -> "); i > 0 {
+			var m1, m2 string
+			if f := strings.Fields(d[:i]); len(f) > 3 {
+				m1 = f[3]
+			}
+			if f := strings.Fields(d[i+4:]); len(f) > 1 {
+				m2 = f[1]
+			}
+			if m1 != m2 {
+				info.Foreign = append(info.Foreign, "C16:mode-changed-by-rewrite")
+			}
 		}
 	}
 	_, wErr := c14SplitStderr(w.Stderr)
